@@ -117,6 +117,47 @@ func vC16Mismatch(c *vCtx) {
 		c.Nontrivial(what + "|" + cfgS + fmt.Sprint(len(data)))
 		c.NewState(what + "|" + cfgS + fmt.Sprint(len(data)))
 	}
+	// receiver STATES: the receiver need not be fresh from its constructor. It may have been
+	// trained, used (adds, a removal), tuned (SetEfSearch, to the very value it was built
+	// with), or have read something before: a prefix of a valid stream of its own (refused)
+	// or a whole one (accepted). A mismatched stream is refused by every one of them.
+	recvStates := func(k *vSerKind) []struct {
+		name string
+		mk   func() any
+	} {
+		own := func() []byte {
+			var b bytes.Buffer
+			k.write(vSerPopulated(k), &b)
+			return b.Bytes()
+		}
+		return []struct {
+			name string
+			mk   func() any
+		}{
+			{"used", func() any { return vSerPopulated(k) }},
+			{"tuned", func() any {
+				r := k.fresh()
+				if h, ok := r.(*HNSWIndex); ok {
+					h.SetEfSearch(h.efSearch)
+				}
+				return r
+			}},
+			{"that refused a truncated stream before", func() any {
+				r := k.fresh()
+				o := own()
+				k.read(r, bytes.NewReader(o[:len(o)*2/3]))
+				return r
+			}},
+			{"that read a valid stream before", func() any {
+				r := k.fresh()
+				k.read(r, bytes.NewReader(own()))
+				if h, ok := r.(*HNSWIndex); ok {
+					h.SetEfSearch(h.efSearch)
+				}
+				return r
+			}},
+		}
+	}
 	// (a) stream of kind A into receiver of kind B != A (populated and empty streams)
 	for i, a := range kinds {
 		for j, b := range kinds {
@@ -126,18 +167,47 @@ func vC16Mismatch(c *vCtx) {
 			try("other-kind", fmt.Sprintf("stream of %s -> receiver %s", a.name, b.name), b.fresh(), b.read, streams[i])
 			try("other-kind", fmt.Sprintf("empty stream of %s -> receiver %s", a.name, b.name), b.fresh(), b.read, empties[i])
 			try("other-kind", fmt.Sprintf("untrained stream of %s -> receiver %s", a.name, b.name), b.fresh(), b.read, untrained[i])
+			if j < 7 {
+				for _, rs := range recvStates(b) {
+					try("other-kind", fmt.Sprintf("stream of %s -> receiver %s %s", a.name, b.name, rs.name), rs.mk(), b.read, streams[i])
+				}
+			}
 		}
 	}
 	// (b) receiver differing from the writer in exactly one construction parameter
 	for i, name := range []string{"flat", "hnsw", "ivf", "pq", "ivfpq"} {
 		for _, v := range variants[name] {
 			k := vSerVecKind(v.cfg)
+			for _, rs := range recvStates(k) {
+				try("parameter:"+v.what, fmt.Sprintf("stream of %s -> receiver %s %s", kinds[i].name, k.name, rs.name), rs.mk(), k.read, streams[i])
+				try("parameter:"+v.what, fmt.Sprintf("empty stream of %s -> receiver %s %s", kinds[i].name, k.name, rs.name), rs.mk(), k.read, empties[i])
+			}
 			try("parameter:"+v.what, fmt.Sprintf("stream of %s -> receiver %s", kinds[i].name, k.name), k.fresh(), k.read, streams[i])
 			try("parameter:"+v.what, fmt.Sprintf("empty stream of %s -> receiver %s", kinds[i].name, k.name), k.fresh(), k.read, empties[i])
 			try("parameter:"+v.what, fmt.Sprintf("untrained stream of %s -> receiver %s", kinds[i].name, k.name), k.fresh(), k.read, untrained[i])
 			// and a trained receiver (ReadFrom replaces the state of a used index too)
 			try("parameter:"+v.what, fmt.Sprintf("stream of %s -> trained receiver %s", kinds[i].name, k.name), k.source(), k.read, streams[i])
 		}
+	}
+	// hnsw: efSearch alone (the constructor takes efConstruction and efSearch separately);
+	// fresh, and tuned with SetEfSearch to the value it was built with
+	for _, tuned := range []bool{false, true} {
+		h, err := NewHNSWIndex(2, Euclidean, 2, 8, 9)
+		if err != nil {
+			continue
+		}
+		name := "fresh"
+		if tuned {
+			h.SetEfSearch(9)
+			name = "tuned"
+		}
+		hk := kinds[1]
+		try("parameter:efSearch", fmt.Sprintf("stream of %s -> receiver built with efSearch=9, %s", hk.name, name), h, hk.read, streams[1])
+		h2, _ := NewHNSWIndex(2, Euclidean, 2, 8, 9)
+		if tuned {
+			h2.SetEfSearch(9)
+		}
+		try("parameter:efSearch", fmt.Sprintf("empty stream of %s -> receiver built with efSearch=9, %s", hk.name, name), h2, hk.read, empties[1])
 	}
 	// hybrid presence bits
 	pres := [][3]bool{{true, true, true}, {false, true, true}, {true, false, true}, {true, true, false}, {false, false, false}}
